@@ -11,7 +11,7 @@ impl Lcg { fn next(&mut self) -> f64 { self.0 = self.0.wrapping_mul(636413622384
 
 #[derive(Clone)]
 pub struct Spec { p: [f64; 7] /* a1 a2 b c1 c2 c3 c4 */, c2_along_x: bool, c3_on_j4: bool, signs: [i32; 6], limits: [Option<(f64, f64, bool)>; 6] /* lower, upper, written as ${radians(deg)} (values then in degrees) */,
-                  order: Vec<usize>, deco: usize, nested: usize, duplicate: usize /* 0 none, 1 identical copy, 2 conflicting copy */, drop: Option<usize>, fixed_extra: bool }
+                  order: Vec<usize>, deco: usize, nested: usize, duplicate: usize /* 0 none, 1 identical copy, 2.. conflicting copy of joint 3 (2 origin, 3 limits only, 4 no limits, 5 axis direction) */, drop: Option<usize>, fixed_extra: bool }
 
 fn name(deco: usize, n: usize) -> String {
     match deco { 0 => format!("joint{}", n), 1 => format!("joint_{}", n), 2 => format!("${{prefix}}joint_{}", n), 3 => format!("JOINT{}", n), 4 => format!("left_arm_joint_a{}", n), 5 => format!("my-joint-{}!", n), _ => format!("${{arm_1.prefix}}joint_{}", n) }
@@ -21,21 +21,22 @@ fn origin(s: &Spec, j: usize) -> [f64; 3] {
     match j { 0 => [0.0, 0.0, c1], 1 => [a1, 0.0, 0.0], 2 => if s.c2_along_x { [c2, b, 0.0] } else { [0.0, b, c2] },
               3 => if s.c3_on_j4 { [c3, 0.0, -a2] } else { [0.0, 0.0, -a2] }, 4 => if s.c3_on_j4 { [0.0, 0.0, 0.0] } else { [c3, 0.0, 0.0] }, _ => [c4, 0.0, 0.0] }
 }
-fn joint_xml(s: &Spec, j: usize, alter: bool) -> String {
-    let o = origin(s, j); let ax = [2usize, 1, 1, 0, 1, 0][j]; let mut a = [0i32; 3]; a[ax] = s.signs[j];
-    let lim = match s.limits[j] { None => String::new(),
+/// alter: 0 as specified; the second copy of a joint may differ in 1 the origin, 2 the limits only, 3 by having no limits, 4 the axis direction only
+fn joint_xml(s: &Spec, j: usize, alter: usize) -> String {
+    let o = origin(s, j); let ax = [2usize, 1, 1, 0, 1, 0][j]; let mut a = [0i32; 3]; a[ax] = if alter == 4 { -s.signs[j] } else { s.signs[j] };
+    let lim = match (if alter == 3 { None } else if alter == 2 { Some(s.limits[j].map(|(lo, hi, d)| (lo * 0.5, hi * 0.25, d)).unwrap_or((-0.5, 0.5, false))) } else { s.limits[j] }) { None => String::new(),
         Some((lo, hi, true)) => format!("<limit lower=\"${{radians({})}}\" upper=\"${{radians({})}}\" effort=\"1\" velocity=\"1\"/>", lo, hi),
         Some((lo, hi, false)) => format!("<limit effort=\"1\" lower=\"{}\" upper=\"{}\" velocity=\"1\"/>", lo, hi) };
     format!("<joint name=\"{}\" type=\"revolute\"><parent link=\"l{}\"/><origin xyz=\"{} {} {}\" rpy=\"0 0 0\"/><axis xyz=\"{} {} {}\"/>{}<child link=\"l{}\"/></joint>\n",
-            name(s.deco, j + 1), j, if alter { o[0] + 0.5 } else { o[0] }, o[1], o[2], a[0], a[1], a[2], lim, j + 1)
+            name(s.deco, j + 1), j, if alter == 1 { o[0] + 0.5 } else { o[0] }, o[1], o[2], a[0], a[1], a[2], lim, j + 1)
 }
 pub fn urdf(s: &Spec) -> String {
     let mut body = String::new();
-    for &j in &s.order { if Some(j) == s.drop { continue; } body += &joint_xml(s, j, false); }
+    for &j in &s.order { if Some(j) == s.drop { continue; } body += &joint_xml(s, j, 0); }
     if s.fixed_extra { body += "<joint name=\"base_link-base\" type=\"fixed\"><origin xyz=\"0 0 0\" rpy=\"0 0 0\"/><parent link=\"b\"/><child link=\"c\"/></joint>\n<link name=\"l0\"/>\n"; }
     let wrap = |inner: &str, n: usize| -> String { let mut t = inner.to_string(); for k in 0..n { t = format!("<xacro:macro name=\"m{}\" params=\"prefix\">\n{}</xacro:macro>\n", k, t); } t };
     let mut all = wrap(&body, s.nested);
-    if s.duplicate > 0 { let mut second = String::new(); for &j in &s.order { second += &joint_xml(s, j, s.duplicate == 2 && j == 2); } all += &wrap(&second, 1); }
+    if s.duplicate > 0 { let mut second = String::new(); for &j in &s.order { second += &joint_xml(s, j, if s.duplicate >= 2 && j == 2 { s.duplicate - 1 } else { 0 }); } all += &wrap(&second, 1); }
     format!("<?xml version=\"1.0\"?>\n<robot name=\"r\" xmlns:xacro=\"http://wiki.ros.org/xacro\">\n{}</robot>\n", all)
 }
 
@@ -43,7 +44,7 @@ fn check(s: &Spec, bad: &mut Vec<String>, tag: &str) {
     let xml = urdf(s);
     let res = std::panic::catch_unwind(|| from_urdf(xml.clone(), &None));
     let res = match res { Ok(r) => r, Err(_) => { bad.push(format!("{}: from_urdf PANICKED", tag)); return; } };
-    let expect_err = s.drop.is_some() || s.duplicate == 2;
+    let expect_err = s.drop.is_some() || s.duplicate >= 2;
     match res {
         Err(e) => { if !expect_err { bad.push(format!("{}: extraction failed: {:?}", tag, e)); } }
         Ok(u) => {
@@ -76,7 +77,9 @@ pub fn c20(c: &Case) {
     for d in 0..7 { let mut s = base.clone(); s.deco = d; n += 1; check(&s, &mut bad, &format!("name decoration {:?}", name(d, 3))); }
     { let mut s = base.clone(); s.order = vec![5, 4, 3, 2, 1, 0]; n += 1; check(&s, &mut bad, "joints declared in reverse order"); }
     for nest in [0usize, 3] { let mut s = base.clone(); s.nested = nest; n += 1; check(&s, &mut bad, &format!("nesting depth {}", nest)); }
-    for dup in [1usize, 2] { let mut s = base.clone(); s.duplicate = dup; n += 1; check(&s, &mut bad, if dup == 1 { "identical second copy" } else { "conflicting second copy" }); }
+    for dup in [1usize, 2, 3, 4, 5] { let mut s = base.clone(); s.duplicate = dup; n += 1; check(&s, &mut bad, ["", "identical second copy", "conflicting second copy (origin)", "conflicting second copy (limits only)", "conflicting second copy (no limits)", "conflicting second copy (axis direction)"][dup]);
+        // and with the conflicting copy declared FIRST (reverse order inside each copy does not matter; swap by reversing the joint order of the description)
+        let mut s2 = s.clone(); s2.order.reverse(); n += 1; check(&s2, &mut bad, &format!("second copy kind {} with reversed declaration order", dup)); }
     for j in 0..6 { let mut s = base.clone(); s.drop = Some(j); n += 1; check(&s, &mut bad, &format!("joint {} missing", j + 1)); }
     { let mut s = base.clone(); s.limits = [Some((-170.0, 170.0, true)), Some((-90.5, 45.25, true)), None, Some((-3.0, 2.0, false)), None, Some((-360.0, 360.0, true))]; n += 1; check(&s, &mut bad, "degrees syntax and joints without limits"); }
     // explicit joint-name list with names that are not of the joint<N> form: used exactly as given, a full six-axis description stays six-axis with its axis signs and limits
